@@ -342,7 +342,11 @@ def cmd_seeded(args, home):
         prop = meta["property"]
         base, dst = make_scratch()
         try:
-            err = apply_mutant(dst, {"kind": "patch", "path": os.path.join(root, sid, "patch.diff")})
+            # patch.diff is relative to the commit the sub-agent worked on (meta.json); when later repairs
+            # touched the same lines, patch_rebased.diff carries the same change ported to the current tree
+            reb = os.path.join(root, sid, "patch_rebased.diff")
+            err = apply_mutant(dst, {"kind": "patch", "path": reb if os.path.exists(reb) else
+                                     os.path.join(root, sid, "patch.diff")})
             if err:
                 print(f"[{sid}] NOT APPLIED: {err}")
                 rc_all = 1
